@@ -313,6 +313,15 @@ theorem C11_root_at_config (fs : FTree) (hasSection : Path → Bool) (d : Path) 
   simp only [hd, searchUp, stopAt_rules, stopAt_two, hc, hs]
   rfl
 
+/-- **config_needs_ini_options.** A pyproject.toml is the pytask configuration exactly when it contains the table
+`tool.pytask.ini_options` (or a table below it). `[tool.pytask]` alone, a plugin's table `[tool.pytask.<plugin>]`
+or other tools' tables do not make it one: the upward search passes it and the parent's configuration — with its
+exclude patterns — applies. -/
+theorem C11_config_needs_ini_options (tables : List (Path × List String)) (cfg : Path) :
+    configSectionPresent tables cfg = true ↔ ∃ t ∈ tables, t.1 = cfg ∧ ["tool", "pytask", "ini_options"] <+: t.2 := by
+  unfold configSectionPresent
+  simp only [List.any_eq_true, Bool.and_eq_true, beq_iff_eq, Generated.configSection, List.isPrefixOf_iff_prefix]
+
 /-! ## the property end to end, and non-vacuity -/
 
 /-- **The property at full strength** for `known_paths`-protected files: no existing file that the specification
@@ -389,5 +398,18 @@ example : findRoot fsLinked (fun p => p == ["g".toList, "pyproject.toml".toList]
   decide
 example : findRoot fsLinked (fun p => p == ["g".toList, "pyproject.toml".toList]) ["g".toList] =
     (["g".toList], some ["g".toList, "pyproject.toml".toList]) := by decide
+
+/-- A mono-repo: `/m/pyproject.toml` has `[tool.pytask.ini_options]`, the sub-package's `/m/pkg/pyproject.toml` only
+`[tool.pytask]` and `[tool.pytask.someplugin]`: cleaning `/m/pkg` uses `/m` as root and the parent's file as configuration. -/
+def fsMono : FTree :=
+  .dir [] [.dir "m".toList [.file "pyproject.toml".toList,
+    .dir "pkg".toList [.file "pyproject.toml".toList, .file "keep.txt".toList]]]
+def monoTables : List (Path × List String) :=
+  [(["m".toList, "pyproject.toml".toList], ["tool"]), (["m".toList, "pyproject.toml".toList], ["tool", "pytask"]),
+   (["m".toList, "pyproject.toml".toList], ["tool", "pytask", "ini_options"]),
+   (["m".toList, "pkg".toList, "pyproject.toml".toList], ["tool"]), (["m".toList, "pkg".toList, "pyproject.toml".toList], ["tool", "pytask"]),
+   (["m".toList, "pkg".toList, "pyproject.toml".toList], ["tool", "pytask", "someplugin"])]
+example : findRoot fsMono (configSectionPresent monoTables) ["m".toList, "pkg".toList] =
+    (["m".toList], some ["m".toList, "pyproject.toml".toList]) := by decide
 
 end Pytask.Clean
